@@ -1,6 +1,7 @@
 """Pool: less common model features (nillable list items, skipped wildcards, slots, local types,
 enum token lists, byte unions, attribute maps next to explicit attributes, xs:anyType fields)."""
 from dataclasses import dataclass, field
+from decimal import Decimal
 from enum import Enum
 from typing import Optional, Union
 
@@ -129,3 +130,35 @@ class AttrMix(metaclass=StableHashMeta):
     qualified: Optional[int] = field(default=None, metadata={"type": "Attribute", "namespace": "urn:e"})
     rest: dict[str, str] = field(default_factory=dict, metadata={"type": "Attributes"})
     value: Optional[int] = field(default=None, metadata={"type": "Text"})
+
+
+class Rate(Enum):
+    LOW = Decimal("1.5")
+    HIGH = Decimal("2")
+    NONE = Decimal("0")
+
+
+@dataclass
+class Rated(metaclass=StableHashMeta):
+    class Meta:
+        name = "rated"
+        namespace = "urn:e"
+
+    rate: Optional[Rate] = field(default=None, metadata={"type": "Element"})
+    rates: list[Rate] = field(default_factory=list, metadata={"type": "Attribute", "tokens": True})
+    amount: Optional[Decimal] = field(default=None, metadata={"type": "Element"})
+    scale: Decimal = field(init=False, default=Decimal("1.0"), metadata={"type": "Attribute"})
+    unit: float = field(init=False, default=2.5, metadata={"type": "Element"})
+
+
+@dataclass
+class OneWild(metaclass=StableHashMeta):
+    """A single-valued wildcard: a second matching child has to be merged into or rejected by the first."""
+
+    class Meta:
+        name = "oneWild"
+        namespace = "urn:e"
+
+    head: Optional[str] = field(default=None, metadata={"type": "Element"})
+    single: Optional[object] = field(default=None, metadata={"type": "Wildcard", "namespace": "##any"})
+    tail: Optional[int] = field(default=None, metadata={"type": "Element"})
